@@ -151,7 +151,7 @@ func (o *c07) onBuilt(n int, ref *blockRef) {
 		}
 	}
 	// (4) withdraw records: paid exactly once
-	o.withdrawLedger(n, v, periodEnd)
+	o.withdrawLedger(n, v, periodEnd, penInc)
 	// (5) settlements: for a chamber validator that is not this block's proposer, has no
 	// delegations and a reward address nobody else uses, RewardsDistributable can only move to
 	// that address: RewardsDistributable + balance(coinbase) is constant (also when the
@@ -165,7 +165,7 @@ func (o *c07) onBuilt(n int, ref *blockRef) {
 	}
 }
 
-func (o *c07) withdrawLedger(n int, v *headView, periodEnd bool) {
+func (o *c07) withdrawLedger(n int, v *headView, periodEnd bool, penInc *big.Int) {
 	s, r := o.s, o.s.r
 	seen := map[common.Hash]bool{}
 	credit := map[common.Address]*big.Int{} // expected credit of this block per recipient
@@ -243,8 +243,12 @@ func (o *c07) withdrawLedger(n int, v *headView, periodEnd bool) {
 		if !seen[id] {
 			w.gone = true
 			r.Probe("withdraw-record-discarded")
-			if !w.finished && w.rec.FinalBalance.Sign() > 0 {
-				// paid and discarded in one block is excluded by retention >= period (drawScale)
+			// An unfinished record may legitimately vanish in one block only when a penalty of
+			// this very block emptied it (then it is finished and — number-CompletionHeight
+			// wrapping around, endblock.go:533 — discarded at once): its value must have
+			// arrived in PenaltyTo. Paid-and-discarded in one block is excluded by
+			// retention >= period (drawScale).
+			if !w.finished && w.rec.FinalBalance.Sign() > 0 && penInc.Cmp(w.rec.FinalBalance) < 0 {
 				r.Report("withdraw-record-lost", "block %d: unfinished withdraw record %x (FinalBalance=%v to %s) disappeared from the queue", n, id[:4], w.rec.FinalBalance, o.name(w.rec.Recipient))
 			}
 			continue
